@@ -74,7 +74,7 @@ def eq_defs(formulas):
     return prod, summ
 
 
-def uf_axioms(apps, max_rounds=3, defs=None):
+def uf_axioms(apps, max_rounds=3, defs=None, focus=None):
     """apps: {fname: {id: (args, term)}} -> list of ground axiom instances (z3 Bool terms)"""
     out = []
     dprod, dsum = defs or ({}, {})
@@ -171,6 +171,9 @@ def uf_axioms(apps, max_rounds=3, defs=None):
         # monotonicity, pairwise
         for f in list(work.keys()):
             items = list(work[f].values())
+            if len(items) > 14 and focus is not None:
+                # many applications (sum witnesses, several channels): pair only those of the goal / path condition
+                items = [it_ for it_ in items if it_[1].get_id() in focus][:24]
             if f in EXPLIKE or f in ('sqrt', 'arcsinh'):
                 for i in range(len(items)):
                     for j in range(i + 1, len(items)):
@@ -323,7 +326,7 @@ def collect(terms):
     return idx, apps, occ
 
 
-def build_hyps(engine, pc, univ, idx0, apps0, sums, path=None, goal=None, rounds=3, cap=4000):
+def build_hyps(engine, pc, univ, idx0, apps0, sums, path=None, goal=None, rounds=6, cap=1500):
     """pc + instances of the universal assumptions at every index term + ground axioms of the real functions"""
     base = list(pc)
     extra = []
@@ -370,7 +373,11 @@ def build_hyps(engine, pc, univ, idx0, apps0, sums, path=None, goal=None, rounds
             break
     hy = base + inst
     _idx, apps, _occ = collect(hy + extra)
-    hy += uf_axioms(apps, defs=eq_defs(hy + extra))
+    _i2, fapps, _o2 = collect(list(pc) + extra + inst[:60])
+    focus = set()
+    for f, d in fapps.items():
+        focus.update(d.keys())
+    hy += uf_axioms(apps, defs=eq_defs(hy + extra), focus=focus)
     sc = engine.all_strconsts()
     if len(sc) > 1:
         hy.append(z3.Distinct(*sc))
